@@ -156,6 +156,7 @@ type txH struct {
 	rec      *txRec
 	us       *state.UntrustedState
 	utrusted map[string]handlers.MessageHandler
+	unverif  map[string]handlers.MessageHandler // handlers of an untrusted connection that has not been verified
 	txs      map[int]*wire.MsgTx
 	idOfTx   map[bitcoin.Hash32]int
 	blocks   map[int]*wire.MsgBlock // 1 = start block, j+1 = Blk[j]
@@ -289,6 +290,8 @@ func (h *txH) boot(first bool) {
 	h.us.SetVerified()
 	h.utrusted = handlers.NewUntrustedMessageHandlers(ctx, h.n.state, h.us, h.n.peers, h.n.blocks, state.NewTxTracker(),
 		h.n.memPool, &h.n.unconfTxChannel, h.n, "1.2.3.4:8333")
+	h.unverif = handlers.NewUntrustedMessageHandlers(ctx, h.n.state, state.NewUntrustedState(), h.n.peers, h.n.blocks, state.NewTxTracker(),
+		h.n.memPool, &h.n.unconfTxChannel, h.n, "1.2.3.5:8333")
 	h.drainOut()
 }
 
@@ -434,12 +437,16 @@ func (h *txH) step(a txAct) (res string) {
 			h.n.handleMessage(ctx, tx)
 		case "UT":
 			h.utrusted[wire.CmdTx].Handle(ctx, tx)
-		case "UX", "TX":
+		case "NU":
+			h.unverif[wire.CmdTx].Handle(ctx, tx)
+		case "UX", "TX", "NX":
 			var buf bytes.Buffer
 			tx.BtcEncode(&buf, wire.ProtocolVersion)
 			ext := &wire.MsgExtended{ExtCommand: wire.CmdTx, Length: uint64(buf.Len()), Payload: buf.Bytes()}
 			if a.S == "UX" {
 				h.utrusted[wire.CmdExtended].Handle(ctx, ext)
+			} else if a.S == "NX" {
+				h.unverif[wire.CmdExtended].Handle(ctx, ext)
 			} else {
 				h.n.handleMessage(ctx, ext)
 			}
@@ -451,13 +458,15 @@ func (h *txH) step(a txAct) (res string) {
 		h.drainOut()
 		h.arr++
 		if len(h.n.unconfTxChannel.Channel) > before {
-			h.q = append(h.q, txQ{T: a.T, Tr: a.S != "UT" && a.S != "UX", Safe: a.S == "LOC"})
+			h.q = append(h.q, txQ{T: a.T, Tr: a.S != "UT" && a.S != "UX" && a.S != "NU" && a.S != "NX", Safe: a.S == "LOC"})
 		}
 	case "Inv":
 		inv := wire.NewMsgInv()
 		inv.AddInvVect(wire.NewInvVect(wire.InvTypeTx, h.txs[a.T].TxHash()))
 		if a.S == "TT" {
 			h.n.handleMessage(ctx, inv)
+		} else if a.S == "NU" {
+			h.unverif[wire.CmdInv].Handle(ctx, inv)
 		} else {
 			h.utrusted[wire.CmdInv].Handle(ctx, inv)
 		}
